@@ -14,7 +14,7 @@ open Sqfs.Obj
 def commaSep (l : List String) : String := ",".intercalate l
 
 def headerName : HeaderInit → String | .init => "init" | .memcpy => "memcpy" | .zeroed => "zeroed"
-def bufActName : BufAct → String | .dup => "dup" | .trim => "trim" | .alias => "alias"
+def bufActName : BufAct → String | .dup => "dup" | .trim => "trim" | .alias => "alias" | .garble => "differ"
 def refActName : RefAct → String | .grab => "grab" | .deep => "deep" | .alias => "alias"
 def viewActName : ViewAct → String | .repoint => "own" | .stale => "alias"
 
@@ -58,7 +58,7 @@ def probe (h : Heap) (o c : Nat) (before : List Nat) : String :=
       | some x, some y =>
         if x = y then "alias"
         else match h.bufs x, h.bufs y with
-          | some bx, some by_ => if by_.cap < bx.cap then "trim" else "dup"
+          | some bx, some by_ => if bx.used ≠ 0 ∧ by_.val ≠ bx.val then "differ" else if by_.cap < bx.cap then "trim" else "dup"
           | _, _ => "dead"
     let refState (a b : Option Nat) (bef : Nat) : String :=
       match a, b with
